@@ -190,10 +190,10 @@ Definition outp_of (outs : list Z) : nat -> Z := fun i => nth i outs (1000000 + 
 Definition pfile (p : Z) : file := {| f_ptr := p; f_blocks := []; f_fparam := 0; f_ents := [] |}.
 
 Definition commit_agrees (c : cfg) (files : list file) (ha : bool) (k : mskind) (outs : list Z)
-  (porders : list (list str)) (faults : list nat) (obs_tr : list ev) (obs_ret : ret) (after : list Z) : bool :=
+  (porders : list (list str)) (faults : list nat) (obs_tr : list ev) (obs_ret : ret) (before after : list Z) : bool :=
   let '(tr, r) := merge_engine c (fo_of faults) ha (outp_of outs) porders files in
   trace_eqb tr obs_tr && ret_eqb r obs_ret
-  && set_z_eqb (map f_ptr (vis_after k pfile files tr)) after.
+  && set_z_eqb (map f_ptr (vis_after k pfile (map pfile before) tr)) after.
 
 (* the C13 predicates on the observed trace *)
 Definition commit_ok (obs_tr : list ev) (obs_ret : ret) (before after : list Z) : bool :=
@@ -231,7 +231,7 @@ Definition mismatch (x : caseG) : bool :=
       negb (str_eqb (merge_key m1) k1) || negb (str_eqb (merge_key m2) k2)
   | GMerge c files tie obs stats after => negb (merge_agrees c files tie obs stats after)
   | GCommit c files ha k outs porders faults obs_tr obs_ret before after =>
-      negb (commit_agrees c files ha k outs porders faults obs_tr obs_ret after)
+      negb (commit_agrees c files ha k outs porders faults obs_tr obs_ret before after)
   | GVis _ _ => false
   | GSingle evs => match sf_replay sf_init evs with Some _ => false | None => true end
   end.
